@@ -53,7 +53,7 @@ class TextAlignment(Enum):
       return value
 
     for text_alignment in list(TextAlignment):
-      if value.lower() == text_alignment.label.lower():
+      if isinstance(value, str) and value.lower() == text_alignment.label.lower():
         return text_alignment
 
     raise ValueError(f"Invalid text align '{value}' value. Expect: 'left', 'center', 'right' or 'auto'.")
